@@ -409,6 +409,11 @@ class Ctx:
         return json.loads(lines[-1])
 
     # ---------------------------------------------------------------- verdict
+    def unlisted(self):
+        """Failures not covered by a known finding."""
+        mine = [k for k in load_known() if k.get("property") == self.prop and k.get("kind") == "known"]
+        return [f for f in self.failures if match_known(mine, f) is None]
+
     def finish(self):
         known = load_known()
         mine = [k for k in known if k.get("property") == self.prop and k.get("kind") == "known"]
